@@ -591,6 +591,8 @@ func VerifLBMain(args []string) int {
 			fmt.Fprintln(iw, rep)
 			if ownW != nil {
 				fmt.Fprintln(ownW, strings.TrimSpace(w.own.after(w)))
+				iw.Flush()
+				ownW.Flush()
 			}
 		}
 		return 0
@@ -620,10 +622,17 @@ func VerifLBMain(args []string) int {
 		for i := 0; i < *nops; i++ {
 			line := w.gen()
 			fmt.Fprintln(ow, line)
+			if ownW != nil {
+				ow.Flush()
+			}
 			rep := w.exec(strings.Fields(line))
 			fmt.Fprintln(iw, rep)
 			if ownW != nil {
 				fmt.Fprintln(ownW, strings.TrimSpace(w.own.after(w)))
+				// flush per line: after a crash or hang of the code under test the last sequence on file is the failing input
+				ow.Flush()
+				iw.Flush()
+				ownW.Flush()
 			}
 			if rep == "panic" {
 				break
